@@ -313,6 +313,25 @@ func init() {
 			if c.Idx%8 == 3 {
 				c01Positions(c, gen.PositionKinds[(c.Idx/8)%len(gen.PositionKinds)], "enc-diff")
 			}
+			if c.Idx%64 == 7 {
+				// acyclic sharing in a recursive type, around the depth where cycle detection starts
+				for di, d := range []int{2, 999, 1000, 1001, 1002, 1500} {
+					x := dagRec(d)
+					if !c.Cur(7000+di, fmt.Sprintf("shapes=core\nshared nodes in a %d-deep chain of RecDag", d)) {
+						continue
+					}
+					v := reflect.ValueOf(x)
+					for ci := range encCfgs {
+						if d > 100 && strings.Contains(encCfgs[ci].name, "ndent") {
+							continue // indentation of a 1000-deep chain is quadratic; C08 drives those
+						}
+						encCompare(c, 7000+di, "enc-diff", &encCfgs[ci], "direct", x, v.Type(), v, "")
+					}
+					w := map[string]any{"v": x}
+					encCompare(c, 7000+di, "enc-diff", &encCfgs[0], "iface", w, reflect.TypeOf(w), reflect.ValueOf(w), "")
+					c.NonTrivial("dag", fmt.Sprint(d))
+				}
+			}
 			for k := 0; k < per; k++ {
 				t, feat := c01Type(c, k)
 				vo := gen.ValOpts{NilHeavy: k%3 == 0}
